@@ -471,17 +471,25 @@ def gen_rejects(R, rng, quick, fsets):
     rej("om_mesh_concat", [], "om_mesh_concat", "no arguments")
     for t in tools:
         rej(t, [rng.choice(["-h", "--help"])], "%s -h" % t, "help", expect="help")
-    # known-finding witnesses (refuted theorems) replayed on the executable
-    if "om_assemble" in tools:
-        R.add(tool="om_assemble", args=["-HM", fs["geom"], fs["cond"], o("conflict1.bin"), "-DSM", fs["geom"], fs["cond"], fs["dip"], o("conflict2.bin")], off=0,
-              expect="witness-conflict", cls="witness", model=fs["name"], suffix="", cwd=od, wrote=o("conflict1.bin"),
-              sym="om_assemble -HM geom cond out1 -DSM geom cond dip out2", desc="two options: the first one has written its output when the second is rejected")
-    if "om_check_geom" in tools:
-        R.add(tool="om_check_geom", args=["-g", fs["geom"], "-q"], off=0, expect="witness-stray", cls="witness", model=fs["name"], suffix="", cwd=od,
-              sym="om_check_geom -g geom -q", desc="stray unknown option accepted by a typed-option tool")
-    if "om_matrix_convert" in tools and "dsm" in fs:
-        R.add(tool="om_matrix_convert", args=["-i", fs["dsm"], "-o", "-of", "ascii"], off=0, expect="witness-dashvalue", cls="witness", model=fs["name"], suffix="", cwd=od,
-              wrote=os.path.join(od, "-of"), sym="om_matrix_convert -i dsm.bin -o -of ascii", desc="value of -o missing: the next option is taken as the file name")
+    # former known findings (pinned tree), repaired: now plain rejected lines that must write nothing
+    rej("om_assemble", ["-HM", fs["geom"], fs["cond"], o("conflict1.bin"), "-DSM", fs["geom"], fs["cond"], fs["dip"], o("conflict2.bin")],
+        "om_assemble -HM geom cond out1 -DSM geom cond dip out2", "two mutually exclusive options")
+    rej("om_assemble", ["-DSM", fs["geom"], fs["cond"], fs["dip"], o("conflict3.bin"), "-HM", fs["geom"], fs["cond"], o("conflict4.bin")],
+        "om_assemble -DSM geom cond dip out1 -HM geom cond out2", "two mutually exclusive options, other order")
+    rej("om_assemble", ["-HM", fs["geom"], fs["cond"], o("twice1.bin"), "-HM", fs["geom"], fs["cond"], o("twice2.bin")],
+        "om_assemble -HM geom cond out1 -HM geom cond out2", "same option twice")
+    rej("om_assemble", ["-CM", fs["geom"], fs["cond"], fs["elec"], fs["domain"], o("cmneg.bin"), "0.1", "-0.2"],
+        "om_assemble -CM geom cond elec domain out 0.1 -0.2", "negative parameter")
+    rej("om_assemble", ["-HM", fs["geom"], fs["cond"], o("stray.bin"), "-verbose"], "om_assemble -HM geom cond out -verbose", "stray second option")
+    rej("om_gain", ["-EEG", fs.get("hminv", "x"), fs.get("dsm", "x"), fs.get("h2em", "x"), o("g1.bin"), "-MEG", fs.get("hminv", "x"), fs.get("dsm", "x"), fs.get("h2mm", "x"), fs.get("ds2mm", "x"), o("g2.bin")],
+        "om_gain -EEG hminv dsm h2em out1 -MEG hminv dsm h2mm ds2mm out2", "two mutually exclusive options")
+    rej("om_check_geom", ["-g", fs["geom"], "-q"], "om_check_geom -g geom -q", "unknown option")
+    rej("om_check_geom", ["-g", fs["geom"], "extra"], "om_check_geom -g geom extra", "stray argument")
+    rej("om_matrix_convert", ["-i", fs.get("dsm", "x"), "-o", o("fo.txt"), "-fo", "ascii"], "om_matrix_convert -i dsm.bin -o out.txt -fo ascii", "misspelt option")
+    rej("om_matrix_convert", ["-i", fs.get("dsm", "x"), "-o", "-of", "ascii"], "om_matrix_convert -i dsm.bin -o -of ascii", "value of -o missing")
+    rej("om_matrix_convert", ["-i", fs.get("dsm", "x"), "-o", o("dup.txt"), "-i", fs.get("hm", "x")], "om_matrix_convert -i a -o out -i b", "option given twice")
+    rej("om_mesh_convert", ["-i", fs["srcmesh"], "-o", o("mc.tri"), "-scale", "2"], "om_mesh_convert -i mesh -o out -scale 2", "unknown option")
+    rej("om_mesh_concat", ["-i1", fs["srcmesh"], "-i2", fs["srcmesh"], "-o", o("cc.tri"), "-i3", fs["srcmesh"]], "om_mesh_concat -i1 a -i2 b -o out -i3 c", "unknown option")
 
 def gen_probes(R, rng, quick):
     """missing-file probes: replace one input parameter by a file that does not exist; if the model says the position is
